@@ -1,6 +1,6 @@
 (* Mapping.v — model of the CCI mapping generator (property C16).
 
-   Transcribes, as the code is now (after fix commits a45ec7e and 51666fd):
+   Transcribes, as the code is now (after fix commits a45ec7e, 51666fd and ae07041):
      snowfakery/generate_mapping_from_recipe.py   (whole file)
      snowfakery/cci_mapping_files/post_processes.py (add_after_statements, _index_by_sobject)
      snowfakery/salesforce.py:52-65               (find_record_type_column)
@@ -321,13 +321,14 @@ Definition step_body (steps : list lstep) (loadable : list dep) (decls : list (s
                (if other then ["_sf_update_key = NULL"] else []))
   end.
 
-(* _index_by_sobject: sf_object -> (first_instance, last_step_name) *)
+(* _index_by_sobject: table -> (first_instance, last_step_name); keyed on mapping["table"] since
+   fix commit ae07041 (lookups name tables, and the PersonContact step has sf_object Contact) *)
 Fixpoint index_by_sobject (idx : nat) (ms : list (string * mstep))
          (acc : list (string * (nat * string))) : list (string * (nat * string)) :=
   match ms with
   | [] => acc
   | (name, m) :: r =>
-    let so := m_sf_object m in
+    let so := m_table m in
     let acc' := match assoc_get so acc with
                 | Some (fi, _) => dict_set so (fi, name) acc
                 | None => dict_set so (idx, name) acc
